@@ -14,7 +14,7 @@
    proposal mass one: C08; symmetric ESS criterion) - those are checked on the implementation by the exact
    transition matrices of harness/pv/props/C01.py. *)
 From PV Require Import Model.Isir Proofs.IsirProofs Model.Csmc Proofs.CsmcSupport Proofs.CsmcInvariant Proofs.AuxVar Proofs.CsmcTarget Proofs.PgAssembly.
-From PV Require Import Model.Grammar Model.Proposals Proofs.GrammarTable Proofs.GrammarPG.
+From PV Require Import Model.Grammar Model.Proposals Proofs.GrammarTable Proofs.GrammarPG Proofs.GrammarForests.
 
 Theorem C01_csmc_invariant :
   forall (A : Type) (q : list A -> dist A) (om : list A -> Qc) (rs : @swarm A -> bool) (n : nat),
@@ -99,6 +99,19 @@ Theorem C01_pg_update_over_grammar_closed_instance :
       (pg_update (gorders n) (gcden n) (gsup on) (uq on) (gtarget n gam) (gdec n) (genc n on) rs N ops).
 Proof. exact pg_update_grammar_closed. Qed.
 Print Assumptions C01_pg_update_over_grammar_closed_instance.
+
+(* the state space of that theorem, independently of the grammar: exactly the tables of forest relations over 0..n-1 *)
+Theorem C01_state_space_is_all_forests : forall (n : nat) (on : bool) (t : list (list bool)),
+  In t (forests n on) <->
+  t = tab n (tget t) /\ wf (seq 0 n) (tget t) /\ (on = false -> no_outliers (seq 0 n) (tget t)).
+Proof. exact forests_spec. Qed.
+Print Assumptions C01_state_space_is_all_forests.
+
+(* every forest has a compatible data order, so the conditional law of the order is defined for every state *)
+Theorem C01_every_forest_has_a_compatible_order : forall (pts : list nat) (r : rel),
+  wf pts r -> exists sg, Permutation.Permutation pts sg /\ compat (rev sg) r.
+Proof. exact forest_has_compatible_order. Qed.
+Print Assumptions C01_every_forest_has_a_compatible_order.
 
 (* the state space and the order density are what they should be on small cases: 42 forests with outliers over three
    points (26 without), and the chain 1 <- 0 has exactly one compatible order out of two *)
